@@ -404,6 +404,8 @@ func geoOp(toks []string) (string, bool) {
 		return xmethods(toks), true
 	case "xcircle":
 		return xcircle(seed), true
+	case "xconc":
+		return xconc(seed), true
 	}
 	return "", false
 }
@@ -432,6 +434,14 @@ func genGeo(suite string, o *out, r *rng, thorough bool) bool {
 	case "c15":
 		for i := 0; i < n; i++ {
 			o.op("xgeo15 %d", r.next()%(1<<62))
+		}
+	case "c16":
+		m := 40
+		if thorough {
+			m = 2000
+		}
+		for i := 0; i < m; i++ {
+			o.op("xconc %d", r.next()%(1<<62))
 		}
 	default:
 		return false
